@@ -7,6 +7,7 @@ import (
 	"go/constant"
 	"go/token"
 	"go/types"
+	"sort"
 
 	"golang.org/x/tools/go/ssa"
 )
@@ -25,9 +26,11 @@ type c05 struct {
 	fLocation                               FieldID
 	lockID                                  string
 	idType                                  types.Type
+	dynCalled                               map[*ssa.Function]bool // reached through a known dynamic route
 	jobWaiterIsWG                           bool
 	reachMemo                               map[*ssa.Function][2]map[*ssa.Function]bool
 	reachLoop                               map[*ssa.Function]bool // functions from which the scheduler loop is reached
+	schedRoots                              map[*ssa.Function]bool // where the scheduler role begins/ends
 	run                                     *c05Flow               // running/claimed flow (ownership rules)
 
 	sched     *ssa.Function          // the scheduler loop: the function whose select receives from the stop channel
@@ -76,14 +79,15 @@ func c05CollectFields(st *types.Struct, tkey string, pkg *types.Package, depth i
 		if depth >= 2 {
 			continue
 		}
-		sub, ok := f.Type().Underlying().(*types.Struct)
+		ft := deref(f.Type()) // by value, through a pointer, or embedded
+		sub, ok := ft.Underlying().(*types.Struct)
 		if !ok {
 			continue
 		}
-		if n, isNamed := f.Type().(*types.Named); isNamed && (n.Obj().Pkg() == nil || n.Obj().Pkg() != pkg) {
+		if n, isNamed := ft.(*types.Named); isNamed && (n.Obj().Pkg() == nil || n.Obj().Pkg() != pkg) {
 			continue // sync.Mutex, time.Time, ...: not ours to look into
 		}
-		out = append(out, c05CollectFields(sub, namedKey(f.Type()), pkg, depth+1)...)
+		out = append(out, c05CollectFields(sub, namedKey(ft), pkg, depth+1)...)
 	}
 	return out
 }
@@ -264,6 +268,31 @@ func newC05Base(p *Prog, r *Report, pkgPath, rel string, need []string) *c05 {
 		})
 	}
 
+	// second pass: call sites that reach a function through a statically known
+	// dynamic route (method value in a local or func-typed field, element of a
+	// literal table, single-implementation interface seam)
+	a.dynCalled = map[*ssa.Function]bool{}
+	for _, fn := range p.Funcs {
+		if fn.Pkg == nil || fn.Pkg.Pkg.Path() != pkgPath {
+			continue
+		}
+		allInstrs(fn, func(in ssa.Instruction) {
+			ci, ok := in.(ssa.CallInstruction)
+			if !ok {
+				return
+			}
+			if h := staticCallee(ci); h != nil && p.funcSet[h] {
+				return
+			}
+			if _, viaParam := ci.Common().Value.(*ssa.Parameter); viaParam {
+				return
+			}
+			for _, t := range a.calleesOf(ci) {
+				a.sites[t] = append(a.sites[t], ci)
+				a.dynCalled[t] = true
+			}
+		})
+	}
 	return a
 }
 
@@ -302,6 +331,10 @@ func (a *c05) reachFrom(fn *ssa.Function, followGo bool) map[*ssa.Function]bool 
 			}
 			if h := staticCallee(ci); h != nil && a.p.funcSet[h] && h.Pkg == fn.Pkg {
 				walk(h)
+			} else if _, viaParam := ci.Common().Value.(*ssa.Parameter); !viaParam {
+				for _, t := range a.calleesOf(ci) {
+					walk(t)
+				}
 			}
 			// closures handed to a callee that runs them, and statically known dynamic targets
 			for _, h := range a.syncCallbacks(ci) {
@@ -365,11 +398,39 @@ func newC05(c *Ctx) *c05 {
 			a.reachLoop[fn] = true
 		}
 	}
+	// scheduler roots: where the scheduler role begins and ends — the functions
+	// leading to the loop that are spawned with go or called from an exported
+	// method (the loop itself may be a phase helper returning to its caller).
+	a.schedRoots = map[*ssa.Function]bool{}
+	for fn := range a.reachLoop {
+		if isExportedFunc(fn) {
+			continue
+		}
+		// the role is held by the activation that RUNS the loop (reaches it through
+		// calls), not by a helper that merely spawns it
+		if !a.reachFrom(fn, false)[a.sched] {
+			continue
+		}
+		for _, s := range a.sites[fn] {
+			_, isGo := s.(*ssa.Go)
+			if isGo || isExportedFunc(s.Parent()) || !a.reachFrom(s.Parent(), false)[a.sched] {
+				a.schedRoots[fn] = true
+			}
+		}
+	}
+	if len(a.schedRoots) == 0 {
+		a.schedRoots[a.sched] = true
+	}
 	// scheduler-side functions (for LOCATING constructs, not for safety
 	// decisions): the loop, goroutine bodies leading to it, and everything they call.
 	a.schedOnly = map[*ssa.Function]bool{}
 	for f := range a.reachFrom(a.sched, false) {
 		a.schedOnly[f] = true
+	}
+	for root := range a.schedRoots {
+		for f := range a.reachFrom(root, false) {
+			a.schedOnly[f] = true
+		}
 	}
 	for _, fn := range a.funcs {
 		if !a.reachLoop[fn] || isExportedFunc(fn) || a.addrTaken[fn] {
@@ -482,6 +543,8 @@ func (a *c05) timerChan(v ssa.Value, seen map[ssa.Value]bool) bool {
 	case *ssa.MakeChan:
 		// a channel made locally and never sent on by anyone else: never fires
 		return true
+	case *ssa.Const:
+		return x.IsNil() // a nil channel never becomes ready
 	case *ssa.Call:
 		obj := calleeObj(x)
 		if obj == nil || obj.Pkg() == nil {
@@ -548,9 +611,6 @@ func (a *c05) timerChan(v ssa.Value, seen map[ssa.Value]bool) bool {
 // returnsOf: the values result #idx of a static call to a module function can
 // take (one per return statement); nil when the callee is unknown.
 func (a *c05) returnsOf(call *ssa.Call, idx int) []ssa.Value {
-	if call.Call.IsInvoke() {
-		return nil
-	}
 	hs := a.calleesOf(call)
 	if len(hs) == 0 {
 		return nil
@@ -687,7 +747,12 @@ func (a *c05) clockDerived1(v ssa.Value) bool {
 	case *ssa.Call:
 		if x.Call.IsInvoke() {
 			m := x.Call.Method
-			return m != nil && m.Name() == "Now" && m.Pkg() != nil && m.Pkg().Path() == "k8s.io/utils/clock"
+			if m != nil && m.Name() == "Now" && m.Pkg() != nil && m.Pkg().Path() == "k8s.io/utils/clock" {
+				return true
+			}
+			if a.seamTarget(x) == nil {
+				return false
+			}
 		}
 		if callIs(x, "time", "", "Now") {
 			return true
@@ -1261,13 +1326,20 @@ func (a *c05) unwrapBound(fn *ssa.Function) *ssa.Function {
 // statically known dynamic targets); nil if unknown.
 func (a *c05) calleesOf(call ssa.CallInstruction) []*ssa.Function {
 	if call.Common().IsInvoke() {
+		if m := a.seamTarget(call); m != nil {
+			return []*ssa.Function{m}
+		}
 		return nil
 	}
 	if h := staticCallee(call); h != nil {
+		h = a.unwrapBound(h) // a method value kept in a local: start := c.startJob; start(j)
 		if a.p.funcSet[h] {
 			return []*ssa.Function{h}
 		}
 		return nil
+	}
+	if tab := a.tableTargets(call); len(tab) > 0 {
+		return tab
 	}
 	var out []*ssa.Function
 	for _, t := range a.dynTargets(call) {
@@ -1275,6 +1347,177 @@ func (a *c05) calleesOf(call ssa.CallInstruction) []*ssa.Function {
 			return nil
 		}
 		out = append(out, t)
+	}
+	return out
+}
+
+// c05CapturedStores: all values stored into the local variable cell, in its
+// function and in the closures capturing it; nil if the variable is used in
+// any other way (its address escapes).
+func c05CapturedStores(cell ssa.Value, depth int) []ssa.Value {
+	if depth > 4 {
+		return nil
+	}
+	var out []ssa.Value
+	for _, r := range refs(cell) {
+		switch x := r.(type) {
+		case *ssa.DebugRef, *ssa.UnOp:
+		case *ssa.Store:
+			if x.Addr != cell {
+				return nil
+			}
+			out = append(out, x.Val)
+		case *ssa.MakeClosure:
+			cl, ok := x.Fn.(*ssa.Function)
+			if !ok {
+				return nil
+			}
+			for bi, b := range x.Bindings {
+				if b != cell || bi >= len(cl.FreeVars) {
+					continue
+				}
+				sub := c05CapturedStores(cl.FreeVars[bi], depth+1)
+				if sub == nil && len(refs(cl.FreeVars[bi])) > 0 {
+					// nil may also mean "no stores": distinguish by re-checking uses
+					okUse := true
+					for _, u := range refs(cl.FreeVars[bi]) {
+						switch u.(type) {
+						case *ssa.UnOp, *ssa.DebugRef:
+						default:
+							okUse = false
+						}
+					}
+					if !okUse {
+						return nil
+					}
+				}
+				out = append(out, sub...)
+			}
+		default:
+			return nil
+		}
+	}
+	return out
+}
+
+// seamTarget: an invoke on an UNEXPORTED interface declared in the analysed
+// package that has exactly one implementation in the package (a seam
+// introduced for structure, not for substitution) is a call of that method.
+func (a *c05) seamTarget(call ssa.CallInstruction) *ssa.Function {
+	cc := call.Common()
+	if !cc.IsInvoke() || cc.Method == nil {
+		return nil
+	}
+	named, ok := cc.Value.Type().(*types.Named)
+	if !ok || named.Obj().Exported() || named.Obj().Pkg() == nil || named.Obj().Pkg().Path() != a.pkg {
+		return nil
+	}
+	iface, ok := named.Underlying().(*types.Interface)
+	if !ok {
+		return nil
+	}
+	var found *ssa.Function
+	n := 0
+	scope := named.Obj().Pkg().Scope()
+	for _, name := range scope.Names() {
+		tn, ok := scope.Lookup(name).(*types.TypeName)
+		if !ok {
+			continue
+		}
+		t := tn.Type()
+		if _, isIface := t.Underlying().(*types.Interface); isIface {
+			continue
+		}
+		for _, cand := range []types.Type{t, types.NewPointer(t)} {
+			if !types.Implements(cand, iface) {
+				continue
+			}
+			ms := types.NewMethodSet(cand)
+			sel := ms.Lookup(cc.Method.Pkg(), cc.Method.Name())
+			if sel == nil {
+				continue
+			}
+			if fn := a.p.SSA.MethodValue(sel); fn != nil && a.p.funcSet[fn] {
+				if found != fn {
+					n++
+				}
+				found = fn
+			}
+			break
+		}
+	}
+	if n == 1 {
+		return found
+	}
+	return nil
+}
+
+// tableTargets: the call's function value is an element of a literal
+// slice/array of closures or functions (a table of steps): the elements, in order.
+func (a *c05) tableTargets(ci ssa.CallInstruction) []*ssa.Function {
+	u, ok := ci.Common().Value.(*ssa.UnOp)
+	if !ok || u.Op != token.MUL {
+		return nil
+	}
+	ia, ok := u.X.(*ssa.IndexAddr)
+	if !ok {
+		return nil
+	}
+	var arr *ssa.Alloc
+	switch x := ia.X.(type) {
+	case *ssa.Slice:
+		arr, _ = x.X.(*ssa.Alloc)
+	case *ssa.Alloc:
+		arr = x
+	}
+	if arr == nil {
+		return nil
+	}
+	type el struct {
+		idx int64
+		fn  *ssa.Function
+	}
+	var els []el
+	for _, r := range refs(arr) {
+		switch x := r.(type) {
+		case *ssa.IndexAddr:
+			if x == ia {
+				continue
+			}
+			k, ok := x.Index.(*ssa.Const)
+			if !ok {
+				return nil
+			}
+			for _, r2 := range refs(x) {
+				st, ok := r2.(*ssa.Store)
+				if !ok {
+					return nil
+				}
+				var fn *ssa.Function
+				switch v := st.Val.(type) {
+				case *ssa.MakeClosure:
+					fn, _ = v.Fn.(*ssa.Function)
+				case *ssa.Function:
+					fn = v
+				}
+				if fn == nil {
+					return nil
+				}
+				fn = a.unwrapBound(fn)
+				if !a.p.funcSet[fn] {
+					return nil
+				}
+				els = append(els, el{k.Int64(), fn})
+			}
+		case *ssa.Slice, *ssa.DebugRef:
+		default:
+			return nil
+		}
+	}
+	sort.Slice(els, func(i, j int) bool { return els[i].idx < els[j].idx })
+	var out []*ssa.Function
+	for _, e := range els {
+		out = append(out, e.fn)
 	}
 	return out
 }
